@@ -278,7 +278,7 @@ Definition sys_wr (cid : Z) (fd : Z) (src : list Z) (exact : bool) (w : world) :
 
 Fixpoint efd_write (fuel : nat) (w : world) : res * world :=
   match fuel with
-  | O => (RErr, stop w)
+  | O => (RErr, desync "fuel" w)
   | S f =>
     match sys "write" [AInt (l_efd (st w))] w with
     | (KErr e, w1) =>
@@ -334,7 +334,7 @@ Section Procs.
 
 Fixpoint el_close (fuel : nat) (cid : Z) (err_nil : bool) (w : world) {struct fuel} : res * world :=
   match fuel with
-  | O => (RErr, stop w)
+  | O => (RErr, desync "fuel" w)
   | S f =>
     let c := wc w cid in
     if negb (c_opened c) || (match alookup (c_fd c) (l_reg (st w)) with None => true | Some _ => false end)
@@ -360,7 +360,7 @@ Fixpoint el_close (fuel : nat) (cid : Z) (err_nil : bool) (w : world) {struct fu
 (* the loop in el.close that tries to flush the outbound buffer *)
 with close_drain (fuel : nat) (cid : Z) (w : world) {struct fuel} : world :=
   match fuel with
-  | O => stop w
+  | O => desync "fuel" w
   | S f =>
     let c := wc w cid in
     match c_out c with
@@ -378,7 +378,7 @@ with close_drain (fuel : nat) (cid : Z) (w : world) {struct fuel} : world :=
 (* conn.write: returns (n, err_nil) *)
 with conn_write (fuel : nat) (cid : Z) (data : list Z) (w : world) {struct fuel} : (Z * bool) * world :=
   match fuel with
-  | O => ((0, false), stop w)
+  | O => ((0, false), desync "fuel" w)
   | S f =>
     let c := wc w cid in
     let n := zlen data in
@@ -395,7 +395,7 @@ with conn_write (fuel : nat) (cid : Z) (data : list Z) (w : world) {struct fuel}
 
 with conn_write_loop (fuel : nat) (cid : Z) (data : list Z) (n : Z) (w : world) {struct fuel} : (Z * bool) * world :=
   match fuel with
-  | O => ((0, false), stop w)
+  | O => ((0, false), desync "fuel" w)
   | S f =>
     let c := wc w cid in
     let et := l_et (st w) in
@@ -427,7 +427,7 @@ with conn_write_loop (fuel : nat) (cid : Z) (data : list Z) (n : Z) (w : world) 
 (* conn.writev: at most iov_max segments per writev(2) *)
 with conn_writev_loop (fuel : nat) (cid : Z) (segs : list (list Z)) (n : Z) (w : world) {struct fuel} : (Z * bool) * world :=
   match fuel with
-  | O => ((0, false), stop w)
+  | O => ((0, false), desync "fuel" w)
   | S f =>
     let c := wc w cid in
     let et := l_et (st w) in
@@ -460,7 +460,7 @@ with conn_writev_loop (fuel : nat) (cid : Z) (segs : list (list Z)) (n : Z) (w :
 (* conn.writev *)
 with conn_writev (fuel : nat) (cid : Z) (segs : list (list Z)) (w : world) {struct fuel} : (Z * bool) * world :=
   match fuel with
-  | O => ((0, false), stop w)
+  | O => ((0, false), desync "fuel" w)
   | S f =>
     let c := wc w cid in
     let data := List.concat segs in
@@ -484,7 +484,7 @@ with conn_writev (fuel : nat) (cid : Z) (segs : list (list Z)) (w : world) {stru
 (* el.write: flush the outbound buffer *)
 with el_write (fuel : nat) (cid : Z) (sent : Z) (w : world) {struct fuel} : res * world :=
   match fuel with
-  | O => (RErr, stop w)
+  | O => (RErr, desync "fuel" w)
   | S f =>
     let c := wc w cid in
     let et := l_et (st w) in
@@ -516,7 +516,7 @@ with el_write (fuel : nat) (cid : Z) (sent : Z) (w : world) {struct fuel} : res 
    Returns the action, the OnOpen reply (if any) and the world. *)
 with handler (fuel : nat) (cid : Z) (w : world) {struct fuel} : (action * option (list Z)) * world :=
   match fuel with
-  | O => ((ANone, None), stop w)
+  | O => ((ANone, None), desync "fuel" w)
   | S f =>
     match pull w with
     | (None, w1) => ((ANone, None), w1)
@@ -530,7 +530,7 @@ with handler (fuel : nat) (cid : Z) (w : world) {struct fuel} : (action * option
 
 with hcall (fuel : nat) (cid : Z) (call : string) (args : list arg) (w : world) {struct fuel} : world :=
   match fuel with
-  | O => stop w
+  | O => desync "fuel" w
   | S f =>
   let c := wc w cid in
   let total := zlen (c_in c) + zlen (c_buf c) in
@@ -605,6 +605,7 @@ with hcall (fuel : nat) (cid : Z) (call : string) (args : list arg) (w : world) 
     match args with
     | [ABytes d] =>
         if c_udp c then
+          if negb (c_remote c) && negb (c_opened c) then hr [AInt 0; ASym "err"] w else
           let '(k, w1) := sys "sendto" [AInt (c_fd c); ABytes d; bool_arg (c_remote c)] w in
           match k with
           | KErr _ => hr [AInt 0; ASym "err"] w1
@@ -640,7 +641,8 @@ with hcall (fuel : nat) (cid : Z) (call : string) (args : list arg) (w : world) 
     match args with
     | [ABytes d; cb] =>
         if c_udp c then
-          let '(k, w1) := sys "sendto" [AInt (c_fd c); ABytes d; bool_arg (c_remote c)] w in
+          let '(k, w1) := if negb (c_remote c) && negb (c_opened c) then (KErr "closed", w)
+                          else sys "sendto" [AInt (c_fd c); ABytes d; bool_arg (c_remote c)] w in
           let w2 := if flag_of cb then emit (obs "acb" [ASym "write"; AInt (-1); ASym "nil"]) w1 else w1 in
           hr [ASym (match k with KErr _ => "err" | _ => "nil" end)] w2
         else
@@ -686,7 +688,7 @@ with hcall (fuel : nat) (cid : Z) (call : string) (args : list arg) (w : world) 
 (* el.read *)
 Fixpoint el_read (fuel : nat) (cid : Z) (recv : Z) (w : world) {struct fuel} : res * world :=
   match fuel with
-  | O => (RErr, stop w)
+  | O => (RErr, desync "fuel" w)
   | S f =>
     let c := wc w cid in
     if negb (c_opened c) && (recv =? 0) then (RNil, w)
@@ -753,7 +755,7 @@ Definition el_open (fuel : nat) (cid : Z) (w : world) : res * world :=
       else
         (fix open_loop (k : nat) (data : list Z) (w : world) : bool * world :=
            match k with
-           | O => (false, stop w)
+           | O => (false, desync "fuel" w)
            | S k' =>
              match data with
              | [] =>
@@ -942,7 +944,7 @@ Definition run_task (fuel : nat) (t : task) (w : world) : res * world :=
 (* drain the urgent queue completely *)
 Fixpoint drain_urgent (fuel : nat) (w : world) : res * world :=
   match fuel with
-  | O => (RErr, stop w)
+  | O => (RErr, desync "fuel" w)
   | S f =>
     if halt w then (RNil, w) else
     match l_urgent (st w) with
@@ -958,7 +960,7 @@ Fixpoint drain_urgent (fuel : nat) (w : world) : res * world :=
 
 Fixpoint drain_low (fuel : nat) (k : Z) (w : world) : res * world :=
   match fuel with
-  | O => (RErr, stop w)
+  | O => (RErr, desync "fuel" w)
   | S f =>
     if halt w then (RNil, w) else
     if k <=? 0 then (RNil, w) else
@@ -1009,7 +1011,7 @@ Fixpoint events (fuel : nat) (evs : list arg) (do_chores : bool) (w : world) : r
    registry is the implementation's choice (map iteration), given by `pick` lines *)
 Fixpoint close_conns (fuel : nat) (w : world) : world :=
   match fuel with
-  | O => stop w
+  | O => desync "fuel" w
   | S f =>
     if halt w then w else
     match l_reg (st w) with
@@ -1027,8 +1029,10 @@ Fixpoint close_conns (fuel : nat) (w : world) : world :=
 (* Poller.Polling *)
 Fixpoint polling (fuel : nat) (w : world) : world :=
   match fuel with
-  | O => stop w
+  | O => desync "fuel" w
   | S f =>
+    (* between events: the size of the registry is what Engine.CountConnections reports *)
+    let w := emit ("g", [ASym "count"; AInt (zlen (l_reg (st w))); ABytes []]) w in
     match pull w with
     | (None, w1) => w1
     | (Some ("wait", evs), w1) =>
